@@ -277,6 +277,12 @@ func genFragmentations(tier string, rng *rand.Rand, shard, nshards int, hooks in
 							emit(doOp(ex, hooks, fl, R, "d:"+hx(other[:c])+";d:"+hx(other[c:])))
 							emit(doOp(ex, hooks, fl, R, "d:"+hx(other)+";d:"+hx(R)))
 						}
+						// a serial port that reports its own read timeout as (0, io.EOF): an empty read like any other
+						if kind == "s" && n > 3 && rng.Intn(2) == 0 {
+							c := 1 + rng.Intn(n-1)
+							emit(doOp(ex, hooks, fl, R, "e:;d:"+hx(R)))
+							emit(doOp(ex, hooks, fl, R, "e:;e:;d:"+hx(R[:c])+";e:;d:"+hx(R[c:])))
+						}
 						// stray bytes behind the reply in the same read
 						if kind != "t" && rng.Intn(2) == 0 {
 							emit(doOp(ex, hooks, fl, R, "d:"+hx(append(append([]byte{}, R...), rbytes(rng, 1+rng.Intn(3))...))))
@@ -575,6 +581,41 @@ func genC12(tier string, rng *rand.Rand, shard, nshards int, emit emitter) {
 // long that a length held in 8 bits wraps: their trailer is the CRC of the first (length-2) mod 256 bytes only
 func genC12Extra(tier string, rng *rand.Rand, shard, nshards int, emit emitter) {
 	j := 0
+	// nine bytes that have the shape of another framing's exception (a gateway speaking Modbus TCP: two id bytes,
+	// 00 00 00 03, unit, function with the error bit, code), and a valid reply to a two-register read whose byte count
+	// was hit so that bytes 2..5 read 00 00 00 03: none of them ends with its CRC, none of them is an answer
+	for k := 0; k < 24; k++ {
+		j++
+		if !mine(j, shard, nshards) {
+			continue
+		}
+		kind := []string{"r", "s"}[k%2]
+		fc := []int{3, 4, 3, 1}[k%4]
+		unit, addr := u8(rng), u16(rng)
+		qty := 2
+		if fc == 1 {
+			qty = 32
+		}
+		ex := exchange{kind: kind, fc: fc}
+		ex.reqSpec = fmt.Sprintf("%d,%d,%d,%d,%d,0,0,-,-", fc, 0, unit, addr, qty)
+		ex.reply = withCRC(append([]byte{byte(unit), byte(fc), 4}, rbytes(rng, 4)...))
+		gw := []byte{byte(rng.Intn(256)), byte(rng.Intn(256)), 0, 0, 0, 3, byte(unit), byte(0x80 | fc), byte(1 + rng.Intn(4))}
+		hit := withCRC([]byte{byte(unit), byte(fc), 4, 0, 0, 3, byte(rng.Intn(256))})
+		hit[2] = 0
+		hit[7] |= 0x80
+		for _, d := range [][]byte{gw, hit} {
+			if crc16(d[:7]) == uint16(d[7])|uint16(d[8])<<8 {
+				continue // (by chance a consistent frame)
+			}
+			fl := flusherFor(rng, kind)
+			emit(doOp(ex, 0, fl, ex.reply, "d:"+hx(d)))
+			emit(doOp(ex, 0, fl, ex.reply, "d:"+hx(d[:5])+";d:"+hx(d[5:])))
+			emit(doOp(ex, 0, fl, ex.reply, "d:"+hx(d[:8])+";t;d:"+hx(d[8:])))
+			if kind == "r" {
+				emit(fmt.Sprintf("dor r %s %s", ex.reqSpec, hx(d)))
+			}
+		}
+	}
 	for _, fc := range []int{15, 16} {
 		ex := buildExchange(rng, "r", fc, rng.Intn(4))
 		n := len(ex.reply)
